@@ -15,7 +15,8 @@
 (* values one in six; the reference cycles through a list spread over the   *)
 (* globe (both signs, the poles, +-180); the offset of the true position is *)
 (* uniform over +-3.3 / +-6.7 degree, or sits on an edge of the decodable   *)
-(* window or next to the reference (one vector in four).                    *)
+(* window or next to the reference (one vector in four); speed bytes are    *)
+(* arbitrary, zero or extreme.                                              *)
 EXTENDS Flarm, TLC, IOUtils, Json
 
 Seed == IF "GEN_SEED" \in DOMAIN IOEnv THEN atoi(IOEnv.GEN_SEED) ELSE 1
@@ -24,7 +25,6 @@ To   == IF "GEN_TO" \in DOMAIN IOEnv THEN atoi(IOEnv.GEN_TO) ELSE 64
 
 (* 32 well-mixed bits per (vector, stream): the protocol's own integer hash *)
 Rnd(i, j) == Obscure(WXor(W(Seed % M16, (j * 2477 + Seed \div M16) % M16), W(i \div M16, i % M16)))
-R27(h) == (h[1] % 2048) * M16 + h[2]              \* 0 .. 2^27 - 1
 R28(h) == (h[1] % 4096) * M16 + h[2]              \* 0 .. 2^28 - 1
 
 TimeEdges == << W(0, 0), W(0, 1), W(0, 63), W(0, 64), W(127, 65535), W(128, 0), W(255, 65535),
@@ -66,6 +66,14 @@ Coord(i, r, mod, span, lim, h1, h2) ==
        IN IF up > lim \/ up < -lim THEN dn ELSE up
   ELSE Place(r, (R28(h2) % (2 * span + 1)) - span, lim)
 
+(* speed bytes (signed, four look-ahead times): arbitrary; one in nine all  *)
+(* zero (no motion); one in nine drawn from the extremes                    *)
+SpeedEdges == <<0, 1, 2, 127, 128, 129, 254, 255>>
+Speeds(i, h) ==
+  CASE i % 9 = 8 -> <<0, 0, 0, 0>>
+    [] i % 9 = 7 -> [k \in 1..4 |-> SpeedEdges[(WordBytes(h)[k] % 8) + 1]]
+    [] OTHER     -> WordBytes(h)
+
 Tuple(i) ==
   LET h   == [j \in 1..12 |-> Rnd(i, j)]
       ref == Refs[(i % Len(Refs)) + 1]
@@ -84,7 +92,7 @@ Tuple(i) ==
        reflat |-> ref[1], reflon |-> ref[2],
        mult |-> h[8][1] % 4, sp0 |-> h[8][2] % 8, sp1 |-> (h[8][2] \div 8) % 2,
        sp2 |-> h[9][1] % 1024,
-       ns |-> WordBytes(h[10]), ew |-> WordBytes(h[11]),
+       ns |-> Speeds(i, h[10]), ew |-> Speeds(i \div 9, h[11]),
        tail |-> <<h[12][2] % 256, h[12][2] \div 256>> ]
 
 Vector(i) == LET p == Tuple(i) IN [i |-> i, p |-> p, pkt |-> Packet(p)]
